@@ -2,7 +2,7 @@ SPECIFICATION Spec
 CONSTANTS
   Inst = {1}
   InitUp = {1}
-  Alerts = {"a", "b"}
+  Alerts = {"a"}
   GW = 1
   GI = 3
   RI = 20
@@ -11,7 +11,7 @@ CONSTANTS
   MinT = 10
   Maint = 1000
   MaxDelay = 1
-  Quantum = 3
+  Quantum = 4
   MaxTime = 44
   Rule = "sum"
   Cfgs = {"A", "B"}
